@@ -468,7 +468,18 @@ class ExprGen(object):
             if self.r.random() < 0.85 else self.sub('num', d)
         return self.op('$subtract', [self.sub('date', d), ms])
 
-    p_date = generic('date') + [(3.0, d_sub)]
+    def d_add(self, d):
+        """a date among the operands of $add (any position), now and then two of them"""
+        args = [self.sub('date', d)]
+        for _ in range(self.r.choice([0, 1, 1, 2])):
+            args.append(self.r.choice([1000, 86400000, 1, -3600000, 0.5, 1.5, 31536000000])
+                        if self.r.random() < 0.8 else self.sub('num', d))
+        self.r.shuffle(args)
+        if self.r.random() < 0.08:
+            args.append(self.sub('date', d))
+        return self.op('$add', args)
+
+    p_date = generic('date') + [(3.0, d_sub), (2.5, d_add)]
 
     def o_lit(self, d):
         self.ops['{doc}'] += 1
